@@ -369,6 +369,83 @@ def check_item(chk, item, seed, tier):
     return n_rsl
 
 
+TAU_COEFF = real.Fr(1, 10000)
+
+
+def coeffwise_polys(cls, cname, proc, order, NF):
+    """(sing, loc) of a light class as formal expansions in ln(1-x) with nf = NF (S or number); None if the class has no such pair.
+    The x-space fits are sums  sing = sum_k s_k ln^k(1-x)/(1-x),  loc = delta + sum_k c_k ln^k(1-x):  one distribution <=> (k+1) c_{k+1} = s_k."""
+    from yv.engine import formal
+    from yv.props import c04
+
+    mk = lambda nf_: _float_obj(dict(module=cls.__module__, cls=cname, xB=0.1, Q2=10.0, proc=proc, nf=nf_, masses={}))[order]()
+    o4, o5 = mk(4), mk(5)
+    if o4 is None or o4.sing is None or o4.loc is None:
+        return None
+    sp = formal.Poly.lift(o4.sing(formal.Z, c04.sym_args(o4.args["sing"], o5.args["sing"], NF)))
+    lp = formal.Poly.lift(o4.loc(formal.Z, c04.sym_args(o4.args["loc"], o5.args["loc"], NF)))
+    if any(not (k[0] == 0 and k[1] == 0 and k[3] == 1) for k in sp.t) or any(not (k[0] == 0 and k[1] == 0 and k[3] == 0) for k in lp.t):
+        raise formal.NotFormal("not a pure polynomial in ln(1-x)")
+    return sp, lp
+
+
+def replay_coeffwise(args):
+    import importlib
+
+    cls = getattr(importlib.import_module(args["module"]), args["cls"])
+    nf = int(round(args["nf"]))
+    sp, lp = coeffwise_polys(cls, args["cls"], args["proc"], args["order"], float(nf))
+    k = args["k"]
+    s_ = sp.t.get((0, 0, k, 1))
+    c_ = lp.t.get((0, 0, k + 1, 0))
+    a = float(s_.const) if s_ is not None else 0.0
+    b = (k + 1) * (float(c_.const) if c_ is not None else 0.0)
+    if (a - b) ** 2 > float(TAU_COEFF) ** 2 * (a * a + b * b):
+        return True, (f"{args['cls']}/o{args['order']} nf={nf}: singular part carries {a!r} ln^{k}(1-x)/(1-x), the local part {b / (k + 1)!r} ln^{k + 1}(1-x), "
+                      f"i.e. {b!r} after differentiation")
+    return False, "coefficients match"
+
+
+REPLAYERS["coeffwise"] = replay_coeffwise
+
+
+def check_coeffwise(chk, item):
+    """transcribed fits, coefficient by coefficient: the envelope test above forgives tau = 1e-4 of the SUM of all terms, which hides a slip in a small
+    coefficient; here every power of ln(1-x) is compared on its own (relative 1e-4; the pinned tree is consistent to 1.2e-5)"""
+    from yv.engine import formal
+
+    key, fam, mname, cname, cls, kws, nf, proc = item
+    if fam != "light" or kws:
+        return
+    for order in (2, 3):
+        with Ctx(chk.seed) as ctx:
+            NF = ctx.var("nf", 3, 6, lo_open=False, hi_open=False)
+            try:
+                pr = coeffwise_polys(cls, cname, proc, order, NF)
+            except (formal.NotFormal, real.NotEncodable, real.Concretised, TypeError, AttributeError, NotImplementedError, IndexError, KeyError) as e:
+                chk.section("coeffwise_skipped", **{f"{fam}.{mname}.{cname}/o{order}": f"{type(e).__name__}: {str(e)[:60]}"})
+                continue
+            if pr is None:
+                continue
+            sp, lp = pr
+            ints = z3.Or(*[NF.t == n_ for n_ in (3, 4, 5, 6)])
+            for k in range(0, 10):
+                s_ = sp.t.get((0, 0, k, 1))
+                c_ = lp.t.get((0, 0, k + 1, 0))
+                if s_ is None and c_ is None:
+                    continue
+                a = s_ if s_ is not None else S.lift(0)
+                b = (k + 1) * (c_ if c_ is not None else S.lift(0))
+                d = a - b
+                tau2 = TAU_COEFF * TAU_COEFF
+                chk.prove(f"{fam}.{mname}.{cname}/o{order}: coefficient of ln^{k}(1-x)/(1-x) == {k + 1} x coefficient of ln^{k + 1}(1-x) in the local part",
+                          (d * d).t <= (tau2 * (a * a + b * b)).t, ctx.facts() + [ints], key=f"coeff:{fam}.{mname}.{cname}:o{order}:k{k}",
+                          replay=lambda m, ctx=ctx, order=order, k=k: ("coeffwise", dict(module=cls.__module__, cls=cname, proc=proc, order=order, k=k,
+                                                                                       nf=float(explore.model_to_assign(ctx, m).get("nf", 4)))),
+                          what=f"{fam}.{mname}.{cname}/o{order}: singular and local part disagree in the ln^{k}(1-x) coefficient (not one distribution)")
+            chk.section("coeffwise", classes=1)
+
+
 def check_defined(chk, item, seed, tier):
     """Definedness obligations of every part on every path."""
     key, fam, mname, cname, cls, kws, nf, proc = item
@@ -580,6 +657,17 @@ def run(chk, only=None):
                 check_defined(chk, it, seed, tier)
             except Exception as e:  # noqa
                 chk.inconclusive_note(f"{it[0]}: harness exception in definedness {e!r} {traceback.format_exc()[-300:]}")
+    if only in (None, "coeffwise"):
+        done = set()
+        for it in items:
+            ck = (it[1], it[2], it[3])
+            if ck in done or not chk.mine("cw" + it[0].split("/")[0]):
+                continue
+            done.add(ck)
+            try:
+                check_coeffwise(chk, it)
+            except Exception as e:  # noqa
+                chk.inconclusive_note(f"{it[0]}: harness exception in coefficient-wise comparison {e!r}")
     chk.section("inventory", rsl_with_parts=n, classes=len(items))
     chk.exhaustive = False
     return chk.finish(
